@@ -139,6 +139,10 @@ func budgetOf(p core.Property, tier string) (int, int, int) {
 	return sec, runs, rt
 }
 
+func markerPath(prop string, w int) string {
+	return filepath.Join(verifDir(), ".build", fmt.Sprintf("case-%s-%d.marker", prop, w))
+}
+
 func replayPath(prop, sig string) string {
 	return filepath.Join(verifDir(), "replays", fmt.Sprintf("%s-%016x.json", prop, core.HashStr(sig)))
 }
@@ -161,6 +165,7 @@ func runWorker(a []string) int {
 	_ = syscall.Setrlimit(syscall.RLIMIT_AS, &syscall.Rlimit{Cur: lim, Max: lim})
 
 	_, maxRuns, runTimeout := budgetOf(p, tier)
+	_ = core.EnableCaseMarker(markerPath(prop, w))
 	out := bufio.NewWriterSize(os.Stdout, 1<<16)
 	emit := func(m wmsg) {
 		b, _ := json.Marshal(m)
@@ -181,6 +186,7 @@ func runWorker(a []string) int {
 		t.Property = prop
 		t.Seed = seed
 		t.Tier = tier
+		core.ClearCase()
 		emit(wmsg{T: "start", Idx: idx})
 		var res *core.Result
 		done := make(chan struct{})
@@ -188,6 +194,10 @@ func runWorker(a []string) int {
 		select {
 		case <-done:
 		case <-time.After(time.Duration(runTimeout) * time.Second):
+			if mt := core.ReadCaseMarker(markerPath(prop, w)); mt != nil {
+				mt.Property, mt.Seed, mt.Tier = prop, seed, tier
+				t = mt
+			}
 			t.Signature = prop + ".hang|run|unknown"
 			path := filepath.Join(verifDir(), "replays", fmt.Sprintf("%s-hang-%d.json", prop, idx))
 			_ = t.Save(path)
@@ -448,25 +458,28 @@ func runParent(prop, tier string) int {
 					return
 				}
 				if hang {
-					start = lastIdx + 1 - w // continue after the hung run (next idx for this worker = lastIdx+W)
 					start = lastIdx + W - w
 					continue
 				}
 				// worker died: attribute to lastIdx
-				msg := tail(stderr.String(), 2000)
+				full := stderr.String()
+				msg := head(full, 1500) + "\n…\n" + tail(full, 500)
 				if lastIdx >= 0 {
 					seed := core.Mix(baseSeed(), core.HashStr(prop), uint64(lastIdx))
 					t := p.Gen(core.NewRng(seed), tier, lastIdx)
+					if mt := core.ReadCaseMarker(markerPath(prop, w)); mt != nil {
+						t = mt
+					}
 					t.Property, t.Seed, t.Tier = prop, seed, tier
 					cls := "killed"
-					if strings.Contains(msg, "out of memory") || strings.Contains(msg, "cannot allocate memory") {
+					if strings.Contains(full, "out of memory") || strings.Contains(full, "cannot allocate memory") {
 						cls = "oom"
-					} else if strings.Contains(msg, "stack overflow") || strings.Contains(msg, "goroutine stack exceeds") {
+					} else if strings.Contains(full, "stack overflow") || strings.Contains(full, "goroutine stack exceeds") {
 						cls = "stack-overflow"
-					} else if strings.Contains(msg, "fatal error") {
+					} else if strings.Contains(full, "fatal error") {
 						cls = "fatal"
 					}
-					sig := prop + ".process-death|" + cls + "|" + locusFromFatal(msg)
+					sig := prop + ".process-death|" + cls + "|" + locusFromFatal(full)
 					t.Signature = sig
 					t.Detail = msg
 					path := replayPath(prop, sig)
@@ -594,6 +607,13 @@ func locusFromFatal(msg string) string {
 		}
 	}
 	return "unknown"
+}
+
+func head(s string, n int) string {
+	if len(s) > n {
+		return s[:n]
+	}
+	return s
 }
 
 func tail(s string, n int) string {
